@@ -5,8 +5,10 @@
      model-evaluator/src/builders/decision_service.rs           (the service closure, the service as function definition)
      model-evaluator/src/model_evaluator.rs                     (evaluate_decision / _business_knowledge_model / _decision_service)
    ImplModel [run]: the recursive closures (each requirement evaluated again by the closure that needs it), fuel = depth.
-   Spec [spec_step]: the same node semantics tabulated once per node along a topological order of the graph
-   (no recursion, no fuel, every shared node has one entry).
+   Tabulation [spec_step]: the same closure body tabulated once per node along a topological order of the graph
+   (no recursion, no fuel, every shared node has one entry).  It shares [body] with [run]: run = spec_step says that
+   the recursion scheme does not matter, nothing more.  The independent Spec is [denote] of C04/Denote.v
+   (theorems impl_is_denotation in C04/DenoteProofs.v).
    The wiring is modelled over an ABSTRACT expression evaluator [eval] (Section variable; the only thing assumed of it
    in the proofs is that it uses its service call-back extensionally).  [teval] is a tiny concrete evaluator
    (numbers, strings, + *, names, f(a,b), boxed invocation, boxed context, relation) used by the correspondence check,
@@ -131,10 +133,11 @@ Definition body (fixed : bool) (G : graph) (rec : kind -> N -> env -> env -> env
                                         if fixed then svc_fn G r a else rec KSvc r inp a) rk out in
       set name (VBkm ps b) o1
   | Some (NSvc name ins indecs encs outs), KSvc =>
-      let idr := fold_left (fun acc d => rec KDec d inp acc) indecs [] in         (* input decisions are evaluated ... *)
+      (* the results of the input decisions are parameters of the service: taken from the provided input data and never
+         evaluated here (decision_service.rs after /repo 6a3e4f8; before it they were evaluated first and the results
+         always replaced by the provided values - same values, but an input decision invoking the service recursed) *)
       let idn := dec_names G indecs in
-      let e1 := fold_left (fun acc nm => set nm (getv nm idr) acc) idn [] in
-      let e2 := fold_left (fun acc nm => set nm (getv nm inp) acc) idn e1 in      (* ... and then taken from the input data *)
+      let e2 := fold_left (fun acc nm => set nm (getv nm inp) acc) idn [] in
       let e3 := inputs_into G ins inp e2 in
       let c1 := fold_left (fun acc d => rec KDec d e3 acc) encs [] in
       let c2 := fold_left (fun acc d => rec KDec d e3 acc) outs c1 in
@@ -185,7 +188,7 @@ Definition refs (G : graph) (id : N) : list N :=
   match find id G with
   | Some (NDec _ _ rk rd _ callable) => rk ++ rd ++ callable
   | Some (NBkm _ _ _ rk callable) => rk ++ callable
-  | Some (NSvc _ _ indecs encs outs) => indecs ++ encs ++ outs
+  | Some (NSvc _ _ _ encs outs) => encs ++ outs            (* input decisions are parameters, not requirements (6a3e4f8) *)
   | _ => []
   end.
 
